@@ -33,6 +33,8 @@ def main():
 				raise core.Infra('lake build failed:\n' + out[-3000:])
 			doc = json.load(open(a.replay))
 			drv = core.Driver()
+			core.limit_memory()
+			core.install_watchdog()
 			mod.replay(rep, drv, doc)
 			drv.close()
 			rc = core.finish(rep, {}, [], replay_only=True)
@@ -40,6 +42,8 @@ def main():
 			return rc
 		ob = core.check_obligations(pid, a.tier)
 		drv = core.Driver()
+		core.limit_memory()
+		core.install_watchdog()
 		mod.run(rep, drv)
 		drv.close()
 		ob['model_calls'] = drv.calls
